@@ -28,14 +28,16 @@ RULE = (
     "reference bytes; for every directory prefix get_obj == reference object of the re-rooted entries and "
     "filter keeps exactly the keys below it; file / absent prefixes behave as documented. "
     "FS: a generated tree materialised twice in two drawn creation orders (second copy on tmpfs or on the "
-    "disk temp dir), staged with build() under checksum_jobs in {None,1,2,8}, state none / cold+warm, after "
+    "disk temp dir), staged with build() under checksum_jobs in {None,1,2,8}, state none / cold+warm, optionally "
+    "with the State already holding rows for the same unchanged files from a build / _get_hashes run under the "
+    "OTHER md5 flavour, under sha256, or version-less DVC 2.x rows (CRLF text files are frequent), after "
     "touch and chmod +x of drawn files, for a drawn sub-directory (direct build vs get_obj), with two "
     ">1 MiB files in one directory (public parallel path) and through _get_hashes(large_file_threshold=small, "
     "jobs, drawn per-file delays so the unordered pool really completes out of order). Oracle: every oid == "
     "ref_tree_oid(hashlib manifest), staged listing bytes == reference bytes, _get_hashes maps each path to "
     "its own hashlib digest. Non-trivial: pure = >=3 entries, >=1 nested key, permutation != identity; "
     "fs = >=2 files and (>=2 files hashed on pool threads in one phase, or a warm build served entirely from "
-    "the state). Distinct = SHA-1 of the case JSON."
+    "the state, or a State pre-warmed under another algorithm). Distinct = SHA-1 of the case JSON."
 )
 ASSUMPTIONS = [
     "key parts are non-empty, contain no '/' and no key is a prefix of another (a tree of files), as staging produces",
@@ -133,9 +135,14 @@ def pure_cases(draw):
     }
 
 
+# CRLF-bearing text is frequent: that is where md5 and md5-dos2unix digests of one file differ
+FS_CONTENT = st.one_of(gen.contents(), gen.contents(), st.sampled_from(["p:crlf", "p:C", "p:b513", "p:hi8"]))
+PREWARM = [None, "build", "build", "get_hashes", "get_hashes", "sha256", "legacy-rows"]
+
+
 @st.composite
 def fs_cases(draw, thorough=False):
-    tree = draw(gen.trees(max_files=16 if thorough else 8, max_depth=3, min_files=1))
+    tree = draw(gen.trees(max_files=16 if thorough else 8, max_depth=3, min_files=1, content=FS_CONTENT))
     big = draw(st.integers(0, 3 if thorough else 11)) == 0
     if big:
         # two > 1 MiB files in one directory: the public route into the unordered pool
@@ -148,7 +155,7 @@ def fs_cases(draw, thorough=False):
             tgt[nm] = draw(gen.large_content())
     algo = draw(st.sampled_from(["md5", "md5", "md5", "md5", "md5-dos2unix", "sha256"]))
     # a State is only combined with the md5 family (see ASSUMPTIONS)
-    states = ["none"] if algo == "sha256" else ["none", "state", "state"]
+    states = ["none"] if algo == "sha256" else ["none", "state", "state", "state"]
     return {
         "kind": "fs",
         "algo": algo,
@@ -159,6 +166,8 @@ def fs_cases(draw, thorough=False):
         "jobs": draw(st.sampled_from([None, 1, 2, 8])),
         "jobs2": draw(st.sampled_from([None, 1, 2, 8])),
         "state": draw(st.sampled_from(states)),
+        # the State may already hold rows for the same unchanged files recorded under ANOTHER algorithm
+        "prewarm": draw(st.sampled_from(PREWARM)),
         "touch": draw(st.lists(st.integers(0, 40), max_size=3)),
         "chmod": draw(st.lists(st.integers(0, 40), max_size=3)),
         "subdir": draw(st.integers(0, 5)),
@@ -428,6 +437,7 @@ def run_fs(case, ctx):
     state = None
     pool_max = 0
     warm_hit = False
+    prewarmed = False
     fs = LocalFileSystem()
     with ctx.tmpdir() as d, HashSpy() as spy:
         try:
@@ -470,6 +480,34 @@ def run_fs(case, ctx):
                         if f.read() != expect_bytes:
                             viols.append(Viol(f"fs-staged-bytes:{label}", "staged directory object bytes != reference"))
                 return obj, calls
+
+            # the shared State may be warm from a run under another algorithm over the same unchanged files
+            pre = case.get("prewarm")
+            if pre and state is not None:
+                other = "md5" if algo == "md5-dos2unix" else "md5-dos2unix"
+                classes.append(f"fs:prewarm={pre}")
+                prewarmed = True
+                if any(b"\r\n" in b and ref.ref_istext(b) for b in flat.values()):
+                    classes.append("fs:prewarm+crlf-text")
+                for w in (w1, w2):
+                    ps = [os.path.join(w, *r.split("/")) for r in rels]
+                    pinfos = {p: _localfs_info(p) for p in ps}
+                    if pre == "build":
+                        odb2 = ops.make_odb("local", os.path.join(d, "odb-other"), state=state, hash_name=other)
+                        build(odb2, w, fs, other, checksum_jobs=case["jobs2"])
+                    elif pre == "get_hashes":
+                        _get_hashes(ps, fs, other, pinfos, state=state, jobs=case["jobs2"])
+                    elif pre == "sha256":
+                        _get_hashes(ps, fs, "sha256", pinfos, state=state, jobs=case["jobs2"])
+                    else:
+                        # rows as DVC 2.x left them: no "version" field, legacy digest under the "md5" key
+                        from dvc_data.hashfile.state import _checksum
+
+                        for p, r in zip(ps, rels):
+                            state.hashes[p] = json.dumps({
+                                "checksum": _checksum(pinfos[p]), "size": pinfos[p]["size"],
+                                "hash_info": {"md5": ref.ref_hash(flat[r], "md5-dos2unix")}})
+                spy.phase()
 
             # _get_hashes on the second copy: drawn threshold, jobs, order, delays
             gpaths = permute([os.path.join(w2, *r.split("/")) for r in rels], case["gorder"] or [0])
@@ -554,7 +592,7 @@ def run_fs(case, ctx):
         classes.append("fs:pool>=2")
     if warm_hit:
         classes.append("fs:warm-hit")
-    return Result(viols, len(flat) >= 2 and (pool_max >= 2 or warm_hit), classes,
+    return Result(viols, len(flat) >= 2 and (pool_max >= 2 or warm_hit or prewarmed), classes,
                   {"fs_cases": 1, "pool_hashed_files": pool_max})
 
 
